@@ -52,6 +52,8 @@ for meth, flag in (("enable", "True"), ("disable", "False")):
         R + meth, params={"self": "obj:Ruler", "names": NAMES_T, "ignoreInvalid": "bool"}, result="atomlist", props=["C11", "C14"],
         modifies=["self.__rules__", "self.__cache__"],
         ensures=INVALIDATED + SAME_RULES + [
+            ("set-semantics", f"forall(i, 0, {N}, iff(self.__rules__[i].enabled == {flag}, old(self.__rules__[i].enabled) == {flag} or "
+                              f"exists(j, 0, len(aslist(names)), Find(self.__rules__, {N}, aslist(names)[j]) == i)))"),
             ("only-named-flip", f"forall(i, 0, {N}, self.__rules__[i].enabled == old(self.__rules__[i].enabled) or self.__rules__[i].enabled == {flag})"),
             ("result-found", f"forall(j, 0, len(result), Find(self.__rules__, {N}, result[j]) >= 0 and self.__rules__[Find(self.__rules__, {N}, result[j])].enabled == {flag})"),
         ],
@@ -61,6 +63,9 @@ for meth, flag in (("enable", "True"), ("disable", "False")):
         ]},
         loops={0: {"types": {"name": "atom", "idx": "int"},
                    "inv": [("cache-none", "self.__cache__ is None")] + SAME_RULES + [
+                       ("set-semantics", f"forall(i, 0, {N}, iff(self.__rules__[i].enabled == {flag}, old(self.__rules__[i].enabled) == {flag} or "
+                                         f"exists(j, 0, _it0, Find(self.__rules__, {N}, aslist(names)[j]) == i)))"),
+                       ("it-range", "_it0 <= len(names)"),
                        ("only-named-flip", f"forall(i, 0, {N}, self.__rules__[i].enabled == old(self.__rules__[i].enabled) or self.__rules__[i].enabled == {flag})"),
                        ("result-found", f"forall(j, 0, len(result), Find(self.__rules__, {N}, result[j]) >= 0 and self.__rules__[Find(self.__rules__, {N}, result[j])].enabled == {flag})"),
                    ],
@@ -71,6 +76,7 @@ add(Contract(
     R + "enableOnly", params={"self": "obj:Ruler", "names": NAMES_T, "ignoreInvalid": "bool"}, result="atomlist", props=["C11", "C14"],
     modifies=["self.__rules__", "self.__cache__"],
     ensures=INVALIDATED + SAME_RULES + [
+        ("set-semantics", f"forall(i, 0, {N}, iff(self.__rules__[i].enabled, exists(j, 0, len(aslist(names)), Find(self.__rules__, {N}, aslist(names)[j]) == i)))"),
         ("result-found", f"forall(j, 0, len(result), Find(self.__rules__, {N}, result[j]) >= 0 and self.__rules__[Find(self.__rules__, {N}, result[j])].enabled)"),
     ],
     raises={"KeyError": INVALIDATED + SAME_RULES + [("not-ignoring", "not ignoreInvalid")]},
